@@ -300,9 +300,12 @@ def main():
                 if r.get("fails"):
                     fs = r.get("failures") or [dict(rp["failure"])]
                     for f0 in fs[:1]:
-                        f0 = dict(f0)
-                        f0["what"] = "corpus case {}: {}".format(fn, f0.get("what", ""))
-                        failures.append(f0)
+                        # keep the stored record replayable (its input), refresh what is reported
+                        f1 = dict(rp["failure"])
+                        f1.update({k: v for k, v in f0.items() if k in (
+                            "signature", "what", "impl", "expected", "clause", "oracle", "kind")})
+                        f1["what"] = "corpus case {}: {}".format(fn, f0.get("what", ""))
+                        failures.append(f1)
             except Exception:
                 C.eprint(traceback.format_exc())
                 broken.append("corpus case {} could not be replayed: {}".format(
